@@ -271,7 +271,11 @@ class FieldsIO:
         field = np.asarray(field)
         assert field.dtype == self.dtype, f"expected {self.dtype} dtype, got {field.dtype}"
         assert field.size == self.nItems, f"expected {self.nItems} values, got {field.size}"
-        with open(self.fileName, "ab") as f:
+        # position after the last complete record: an incomplete record left behind by an interrupted write is dropped
+        offset = self.hSize + self.nFields * (self.tSize + self.fSize)
+        with open(self.fileName, "r+b") as f:
+            f.seek(offset)
+            f.truncate()
             np.array(time, dtype=T_DTYPE).tofile(f)
             field.tofile(f)
 
